@@ -32,9 +32,13 @@ void expect_generic(bool pred, const char* msg, const char* file, uint64_t line)
 
 template <typename ExcT>
 void expect_raises_fn(const char* file, uint64_t line, std::function<void()> fn) {
+  // The failure for the no-exception case must not be raised inside the try
+  // block, or it would be caught below when ExcT is a base of
+  // expectation_failed (or is expectation_failed itself)
+  bool returned = false;
   try {
     fn();
-    expect_generic(false, "expected exception, but none raised", file, line);
+    returned = true;
   } catch (const ExcT&) {
     return;
   } catch (const std::exception& e) {
@@ -45,6 +49,9 @@ void expect_raises_fn(const char* file, uint64_t line, std::function<void()> fn)
     // but it's probably pretty rare to catch something that isn't a
     // std::exception anyway.
     expect_generic(false, "incorrect exception type raised", file, line);
+  }
+  if (returned) {
+    expect_generic(false, "expected exception, but none raised", file, line);
   }
 }
 
